@@ -44,7 +44,7 @@ def build_case(beh, name, shape_seed=0):
         res = []
         for o in ops:
             k = o["op"]
-            if k in ("defer", "lazy", "idle"):
+            if k in ("defer", "lazy", "idle") and o.get("via") != "actor":
                 extra = None
                 if o.get("od"):
                     extra = {"ondrop": [{"op": "defer", "via": "deferrer", "item": item(o["od"])}]}
@@ -55,7 +55,7 @@ def build_case(beh, name, shape_seed=0):
                 res.append({"op": "run", "t": [o["t"], 0], "idle": o["idle"]})
             elif k == "acreate":
                 res.append({"op": "acreate", "aid": o["aid"], "oid": o["oid"], "init": item(o["item"]),
-                            "form": (o["aid"] + o["item"] + shape_seed) % 3})
+                            "form": (o["aid"] + o["item"] + shape_seed) % 3, "slab": bool(o.get("slab", False))})
             elif k == "call":
                 holds = {}
                 if o.get("ho"):
@@ -64,6 +64,17 @@ def build_case(beh, name, shape_seed=0):
                     holds["rets"] = list(o["hr"])
                 res.append({"op": "call", "aid": o["aid"], "prep": o["prep"],
                             "item": item(o["item"], {"holds": holds} if holds else None)})
+            elif k == "defer" and o.get("via") == "actor":
+                res.append({"op": "defer", "via": "actor", "aid": o["aid"], "item": item(o["item"])})
+            elif k == "vdefer":
+                res.append({"op": "vdefer", "item": item(o["item"])})
+            elif k == "query":
+                body = []
+                if o["qb"] == "stop":
+                    body = [{"op": "stop"}]
+                elif o["qb"] == "fail":
+                    body = [{"op": "fail", "code": o["code"]}]
+                res.append({"op": "query", "aid": o["aid"], "item": {"id": o["item"], "ops": body}})
             else:
                 res.append(dict(o))
         return res
@@ -85,6 +96,8 @@ KEYS = {
     "logrec": ["id", "level", "parent", "marker"],
     "tupd": ["tid", "kind", "t", "res"], "tdelb": ["tid"], "tdel": ["tid", "kind", "res"],
     "tact": ["tid", "kind", "res"], "nexp": ["has", "x"],
+    "slablen": ["aid", "ready", "len"],
+    "query": ["item", "aid"], "querye": ["item", "aid", "some"],
 }
 
 
